@@ -231,7 +231,12 @@ def build_class(prog):
         finally:
             self.__dict__['_hookdepth'] -= 1
         _rec(self, 'Y', None)
-    for _f in (set_status, on_paused, on_playing):
+    def on_entered(self, from_state):
+        super(klass, self).on_entered(from_state)
+        if self.__dict__.get('_verif_hookstatus'):
+            # a class that reports its progress from a state hook rather than from its steps (status stream of C05 only)
+            self.set_status(f'at {self.state.value}')
+    for _f in (set_status, on_paused, on_playing, on_entered):
         setattr(cls, _f.__name__, _f)
     # make the class importable by name (persistence identifies classes as module:qualname)
     import hashlib
@@ -390,7 +395,7 @@ class Run:
     """One real process under the deterministic loop. `do(op)` performs an environment op, `tick()` runs one callback;
     both append to .ops / .obs (the lines exchanged with the model) and to the raw records the monitors read."""
 
-    def __init__(self, prog, status0=None, plan=None, process=None, loop=None, loop_mode=None, driver='stock', uout=False):
+    def __init__(self, prog, status0=None, plan=None, process=None, loop=None, loop_mode=None, driver='stock', uout=False, hookstatus=False):
         """`process` / `loop`: adopt an existing instance (one loaded from a Bundle in `loop`) instead of creating one"""
         logging.disable(logging.CRITICAL)
         self.prog = prog
@@ -414,6 +419,8 @@ class Run:
         if process is None:
             cls = build_class(prog)
             self.p = p = cls(loop=self.loop)
+            if hookstatus:
+                p.__dict__['_verif_hookstatus'] = True
             if uout:            # (not for the runs that are checkpointed: outputs are part of the saved state)
                 p.__dict__['_verif_uout'] = True
         else:
@@ -742,8 +749,8 @@ def driver_for(sched):
     return 'steps' if (sum(int(k) for k in sched) // 4) % 2 else 'stock'
 
 
-def run_schedule(prog, schedule, max_cb=60, status0=None, plan=None, loop_mode=None, driver='stock'):
-    r = Run(prog, status0=status0, plan=plan, loop_mode=loop_mode, driver=driver, uout=True)
+def run_schedule(prog, schedule, max_cb=60, status0=None, plan=None, loop_mode=None, driver='stock', hookstatus=False):
+    r = Run(prog, status0=status0, plan=plan, loop_mode=loop_mode, driver=driver, uout=True, hookstatus=hookstatus)
     last = max(schedule.keys(), default=-1)
     n = 0
     while n < max_cb:
